@@ -874,6 +874,19 @@ class SymList:
         return self.n > 0
 
 
+class SymListDerived(SymList):
+    """[x for x in <list of arbitrary length> (if cond)]: a NEW list holding the elements of `base` in order — all of them
+    (unfiltered) or an unknown sub-sequence (filtered; the conditions are not evaluated: over-approximation)."""
+
+    def __init__(self, base, filtered):
+        n = base.n
+        if filtered:
+            n = _z3.Int(f'len_{base.tag}_f{next(V._ctr)}')
+        super().__init__(n, True, base.tag + ("'f" if filtered else "'"))
+        self.base, self.filtered = base, filtered
+        self.appended = [] if filtered else list(base.appended)
+
+
 class SymListSlice:
     py_iterable = True
 
